@@ -163,7 +163,8 @@ func accountMenu(w *world.World, o menuOpts) []world.Action {
 	var acts []world.Action
 	contracts := [][]byte{uni.S0}
 	if o.shards > 1 {
-		contracts = append(contracts, uni.S1c)
+		// s1 is owned on its own shard, u1 by a user and v1 by a contract of the other shard
+		contracts = append(contracts, uni.S1c, uni.U1, uni.V1)
 	}
 	callers := append(users(o), uni.S0, uni.D0)
 	for _, c := range callers {
@@ -172,6 +173,14 @@ func accountMenu(w *world.World, o menuOpts) []world.Action {
 				acts = append(acts, uni.Call(c, k, vmcommon.BuiltInFunctionChangeOwnerAddress, nw))
 			}
 			acts = append(acts, uni.Call(c, k, vmcommon.BuiltInFunctionClaimDeveloperRewards))
+			if vmcommon.IsSmartContractAddress(c) {
+				// a contract reaches a remote contract through an asynchronous call
+				as := uni.Call(c, k, vmcommon.BuiltInFunctionClaimDeveloperRewards)
+				as.CallType = vmcommon.AsynchronousCall
+				ao := uni.Call(c, k, vmcommon.BuiltInFunctionChangeOwnerAddress, uni.B0)
+				ao.CallType = vmcommon.AsynchronousCall
+				acts = append(acts, as, ao)
+			}
 		}
 		for _, target := range [][]byte{uni.B0, uni.C1} {
 			if o.shards == 1 && string(target) == string(uni.C1) {
